@@ -765,6 +765,9 @@ CORPUS = [
     ([_f(["a"])], [_e(["a", "c", "x"], "dir")], True),
     ([_f(["a"])], [_e(["a", "c", "x"], "reg")], True),
     ([_f(["a"])], [_e(["q"], "reg", key=[1, 2]), _e(["a", "c", "x"], "reg", key=[1, 2])], True),
+    # a directory entry over a symlink whose target runs through a file: os.stat raises NotADirectoryError (not caught)
+    ([_f(["a"]), _s(["l"], "a/b/c")], [_e(["l"], "dir")], True),
+    ([_f(["a"]), _s(["l"], "a/b/c")], [_e(["l", "x"], "reg")], True),
     # root missing: merge_contents creates the offset
     (None, [_e(["a"], "dir"), _e(["a", "f"], "reg")], True),
 ]
